@@ -26,7 +26,9 @@ func breakExpr(t *rapid.T, e hx.Expr, tab hx.Table) (hx.Expr, string) {
 	var bad hx.Expr
 	switch how {
 	case "unknown-fn":
-		bad = hx.Expr{Op: "call", Fn: "nosuchfn", Args: []hx.Expr{{Op: "col", Col: anyCol}}}
+		// also the upper-case spelling of a built-in: names are looked up as written
+		fn := rapid.SampledFrom([]string{"nosuchfn", "Abs", "STR", "Upper", "twice"}).Draw(t, "unknownfn")
+		bad = hx.Expr{Op: "call", Fn: fn, Args: []hx.Expr{{Op: "col", Col: anyCol}}}
 	case "unknown-col":
 		bad = hx.Expr{Op: "col", Col: "nosuchcol"}
 	case "type-mismatch":
